@@ -24,6 +24,25 @@
 //!          (the datagram is then discarded: documented for all three kinds), never short
 //!          data; `peek*` does not consume.
 //!
+//!   buffer acceptance (both directions): whether a datagram is queued is judged by the
+//!          documented PacketBuffer placement rule applied to the buffer's current geometry
+//!          (`ring_fits`): accepted iff a metadata slot is free and the payload fits contiguously
+//!          at the tail of the payload ring, or - the tail padded, with a slot of its own - at the
+//!          head.  A valid inbound datagram that is dropped, or a send refused with BufferFull,
+//!          although the rule places it, is a violation (rx-delivery/dropped-although-it-fits,
+//!          tx-accept/refused-although-it-fits); the opposite direction is not judged.
+//!   IPv4 header checksum of every emitted packet of the socket's protocol (whole datagrams and
+//!          every fragment) is verified independently where the device capabilities say the
+//!          stack computes it: a packet a receiver would discard has not been transmitted.
+//!
+//! Extra configuration families besides the ring product {1,2,3} slots x {4,6,8}+2*hdr octets:
+//! small rings with 4 slots and 16 / 24 (+2*hdr) octets with sizes {2,6,8}+hdr (exact fit / one
+//! short / one over after wrap-around; rx and tx alphabets); tight IPv4 links (IP MTU 36 and
+//! 34; sizes M-1, M, M+1 and M+17 = 3 resp. 4 fragments, i.e. with middle fragments); device
+//! checksum capabilities {ipv4 Rx, ipv4 None, all Rx}; two own addresses per family with
+//! per-datagram `local_address`; inbound broadcast / multicast destinations; datagrams that
+//! can only match an endpoint-less socket (udp port 0, icmp error).
+//!
 //! Emitted frames are parsed by `dgram/frames.rs` + `wirecheck` (independent of
 //! `smoltcp::wire`); stimulus frames are built by the same independent code.
 //!
@@ -269,8 +288,16 @@ impl Cfg {
     fn sizes(&self) -> [usize; 4] {
         let h = self.hdr();
         if self.ip_mtu != 0 {
+            // one less than / exactly / one more than what fills the MTU (2 fragments), and a
+            // datagram of 3 (MTU 36) or 4 (MTU 34) fragments, i.e. with MIDDLE fragments
             let m = self.fills_mtu();
-            return [h, m - 1, m, m + 1];
+            return [m - 1, m, m + 1, m + 17];
+        }
+        if self.slots >= 4 {
+            // small payload rings with plenty of metadata slots (16 / 24 octets + 2*hdr): sizes
+            // chosen so that wrap-around with an exact fit at the head of the ring, one short
+            // and one over all occur (e.g. 6, 8 in, 6 out, then 6 / 8 / 2)
+            return [h + 2, h + 6, h + 8, self.cap()];
         }
         [h, h + 1, h + 3, self.cap()]
     }
@@ -465,7 +492,7 @@ outcomes! {
     Close => "close",
     InDelivered => "inbound:delivered",
     InDeliveredZero => "inbound:zero-length datagram delivered",
-    InDroppedTolerated => "inbound:dropped(rx queue non-empty)",
+    InDroppedTolerated => "inbound:dropped(rx buffer cannot hold it)",
     InNonUnicastDelivered => "inbound:broadcast/multicast destination, delivered",
     InNonUnicastNotDelivered => "inbound:broadcast/multicast destination, not delivered (tolerated)",
     InNotEligible => "inbound:not-for-socket(unbound/non-matching/oversize),not queued",
@@ -753,6 +780,48 @@ impl DgH {
             Kind::Raw => self.sockets.get::<raw::Socket>(self.h).can_recv(),
         }
     }
+    /// (metadata slots, records in use, payload read position, payload length) of the rx or tx
+    /// packet buffer, read from the socket's public `Debug` image
+    fn ring_geom(&self, which: &str) -> Option<(usize, usize, usize, usize)> {
+        let img = format!("{:?}", self.sockets);
+        let key = format!("{}: PacketBuffer {{ metadata_ring: RingBuffer {{ storage: Owned([", which);
+        let i = img.find(&key)?;
+        let (entries, _, used, tail) = parse_meta_ring(&img[i + key.len()..])?;
+        let j = tail.find("]), read_at: ")?;
+        let (read, t) = num(&tail[j + "]), read_at: ".len()..]);
+        let (len, _) = num(t.strip_prefix(", length: ")?);
+        Some((entries.len(), used, read, len))
+    }
+
+    /// The documented PacketBuffer placement rule, applied to the buffer as it is now: a packet
+    /// of `size` octets is accepted iff a metadata slot is free and the payload fits either
+    /// contiguously at the tail of the payload ring (an empty ring is reset first, so all of
+    /// it is contiguous), or - the tail being padded, which takes a metadata slot of its own -
+    /// contiguously at the head.  None: image not understood (no verdict).
+    /// A refused enqueue leaves the geometry unchanged, so this is evaluated AFTER a refusal.
+    fn ring_fits(&self, which: &str, size: usize) -> Option<bool> {
+        let (slots, used, read, len) = self.ring_geom(which)?;
+        let cap = self.cfg.cap();
+        if slots < used || len > cap {
+            return None;
+        }
+        let free_slots = slots - used;
+        if size > cap || free_slots == 0 {
+            return Some(false);
+        }
+        let (read, len) = if len == 0 { (0, 0) } else { (read, len) };
+        let window = cap - len;
+        if window < size {
+            return Some(false);
+        }
+        let write = (read + len) % cap.max(1);
+        let contig = window.min(cap - write);
+        if contig >= size {
+            return Some(true);
+        }
+        Some(window - contig >= size && free_slots >= 2)
+    }
+
     /// number of packet (non-padding) records in the rx buffer according to the socket's
     /// `Debug` image
     fn rx_packets_queued(&self) -> usize {
@@ -1036,7 +1105,44 @@ impl DgH {
             fr::L3::Ip { info, packet } => (info.clone(), packet.clone()),
         };
         let payload = &packet[info.payload_off..];
-        vlog!("      tx: {} -> {} proto {} len {} {}", info.src, info.dst, info.proto, payload.len(), hex(payload));
+        vlog!(
+            "      tx: {} -> {} proto {} len {} {}{}",
+            info.src,
+            info.dst,
+            info.proto,
+            payload.len(),
+            hex(payload),
+            if info.more_frags || info.frag_offset != 0 { format!(" [fragment offset {} MF={}]", info.frag_offset, info.more_frags as u8) } else { String::new() }
+        );
+        // IPv4 header checksum (RFC 1071 over the header, wirecheck) of every packet of the
+        // socket's protocol - whole datagrams and all fragments - where the capabilities say
+        // the stack computes it: a receiver discards a packet with a bad header checksum, so
+        // such a datagram / fragment has not been transmitted
+        let own_proto = match self.cfg.kind {
+            Kind::Udp => fr::PROTO_UDP,
+            Kind::Icmp => fr::PROTO_ICMP,
+            Kind::Raw => RAW_PROTO,
+        };
+        if info.version == 4 && info.proto == own_proto && stack_computes(self.cfg.ck.caps().ipv4) && !info.header_checksum_ok {
+            let d = format!(
+                "IPv4 packet {} -> {} (offset {}, MF={}, {} octets) left with a wrong header checksum: header {}",
+                info.src,
+                info.dst,
+                info.frag_offset,
+                info.more_frags as u8,
+                info.total_len,
+                hex(&packet[..info.header_len])
+            );
+            let cause = if info.more_frags && info.frag_offset != 0 {
+                "ipv4-header-checksum-of-middle-fragment"
+            } else if info.more_frags || info.frag_offset != 0 {
+                "ipv4-header-checksum-of-fragment"
+            } else {
+                "ipv4-header-checksum"
+            };
+            self.viol(out, "tx-unmodified", cause, d, true);
+            return;
+        }
         if info.proto == fr::PROTO_ICMPV6 && payload.first() == Some(&135) {
             stat(O::TxNs);
             if payload.len() >= 24 && Addr::V6(payload[8..24].try_into().unwrap()) == self.a(Who::B) {
@@ -1283,6 +1389,18 @@ impl DgH {
                 if q1 != q0 {
                     let d = format!("send of {} bytes returned Err({}) but send_queue() went from {} to {}", n, text, q0, q1);
                     self.viol(out, "tx-error", "queued-despite-error", d, true);
+                } else if !unaddr {
+                    let want = if *api == Api::SendWith { max } else { n };
+                    if self.ring_fits("tx_buffer", want) == Some(true) {
+                        let d = format!(
+                            "send of {} octets returned Err({}) although the tx buffer can hold it (geometry (slots, used, read_at, length) = {:?}, payload capacity {})",
+                            want,
+                            text,
+                            self.ring_geom("tx_buffer"),
+                            self.cfg.cap()
+                        );
+                        self.viol(out, "tx-accept", "refused-although-it-fits", d, false);
+                    }
                 }
             }
         }
@@ -1560,8 +1678,17 @@ impl DgH {
             } else if model_empty {
                 let d = format!("valid datagram #{} ({} bytes <= capacity {}) for the bound socket was not delivered although its rx buffer was empty", label, size, self.cfg.cap());
                 self.viol(out, "rx-delivery", "dropped-into-empty-buffer", d, false);
+            } else if self.ring_fits("rx_buffer", size) == Some(true) {
+                let d = format!(
+                    "valid datagram #{} ({} octets) for the bound socket was dropped although the rx buffer can hold it (geometry (slots, used, read_at, length) = {:?}, payload capacity {})",
+                    label,
+                    size,
+                    self.ring_geom("rx_buffer"),
+                    self.cfg.cap()
+                );
+                self.viol(out, "rx-delivery", "dropped-although-it-fits", d, false);
             } else {
-                vlog!("      inbound #{} dropped, rx queue non-empty (tolerated)", label);
+                vlog!("      inbound #{} dropped, rx buffer cannot hold it", label);
                 stat(O::InDroppedTolerated);
             }
         } else {
@@ -1576,8 +1703,11 @@ impl DgH {
             } else if model_empty {
                 let d = format!("valid zero-length datagram #{} for the bound socket was not delivered although its rx buffer was empty", label);
                 self.viol(out, "rx-delivery", "dropped-into-empty-buffer", d, false);
+            } else if self.ring_fits("rx_buffer", 0) == Some(true) {
+                let d = format!("valid zero-length datagram #{} for the bound socket was dropped although a metadata slot is free ({:?})", label, self.ring_geom("rx_buffer"));
+                self.viol(out, "rx-delivery", "dropped-although-it-fits", d, false);
             } else {
-                vlog!("      inbound #{} (zero length) dropped, rx queue non-empty (tolerated)", label);
+                vlog!("      inbound #{} (zero length) dropped, no metadata slot", label);
                 stat(O::InDroppedTolerated);
             }
         }
@@ -2113,7 +2243,10 @@ fn depth_for(tier: Tier, c: &Cfg) -> usize {
             }
         }
         (Tier::Quick, Phase::Tx) => match (c.slots, c.eth) {
-            (1, _) | (2, _) => FIX,
+            (1, _) => FIX,
+            // udp on Ethernet: fixpoint only at depth 17 with ~430k transitions per configuration
+            (2, true) if udp == 1 => 9,
+            (2, _) => FIX,
             // the udp alphabet is larger (local_address sends)
             (_, true) => 6 - udp,
             (_, false) => 7,
@@ -2169,9 +2302,28 @@ fn configs(tier: Tier) -> Vec<(Cfg, usize)> {
                         continue;
                     }
                     let mut c = Cfg { phase: Phase::Tx, kind, eth, v6: false, slots, k: 0, via_b, ip_mtu, ck: Ck::Default };
-                    // room for two datagrams of about the critical size (wrap-around included)
-                    c.k = 2 * (c.fills_mtu() - c.hdr()) + 2;
+                    // room for the largest datagram (M+17) plus one of about the critical size
+                    c.k = 2 * (c.fills_mtu() - c.hdr()) + 18;
                     let d = depth_for(tier, &c);
+                    v.push((c, d));
+                }
+            }
+        }
+    }
+    // small payload rings with 4 metadata slots (16 and 24 octets + 2*hdr), sizes {2,6,8}+hdr:
+    // exact fit / one short / one over at the head of the ring after the tail was padded;
+    // rx and tx alphabets
+    for phase in [Phase::Rx, Phase::Tx] {
+        for kind in [Kind::Udp, Kind::Icmp, Kind::Raw] {
+            for k in [16usize, 24] {
+                for (eth, v6) in [(true, false), (false, true)] {
+                    let c = Cfg { phase, kind, eth, v6, slots: 4, k, via_b: false, ip_mtu: 0, ck: Ck::Default };
+                    let d = match (tier, phase) {
+                        (Tier::Quick, Phase::Rx) => 7,
+                        (Tier::Quick, _) => 4,
+                        (Tier::Thorough, Phase::Rx) => 10,
+                        (Tier::Thorough, _) => 7,
+                    };
                     v.push((c, d));
                 }
             }
@@ -2199,6 +2351,8 @@ pub fn run(tier: Tier) -> i32 {
     rep.assumptions.push("reference model = two FIFO queues of (metadata, bytes); trusted".into());
     rep.assumptions.push("frame parser/builder (dgram/frames.rs + wirecheck) written from the RFCs, independent of smoltcp::wire; trusted".into());
     rep.assumptions.push("state merging: fingerprint = Interface::verif_digest + SocketSet debug image with (1) payload ring bytes replaced by the model queues (label renaming), (2) ipv4_id stripped (never on the wire without fragmentation), (3) instants made relative to now (past -> '-', > 3 s ahead -> 'far': only neighbor lifetimes of 60 s, histories last < 55 s, checked at run time), (4) only the allocated records of the metadata rings kept, read position of an EMPTY payload ring dropped (enqueue clears an empty ring first), (5) an expired neighbor wait of the socket == Active; plus model queues, back-pressure counter, pending neighbor request. The arguments are written next to `normalized_image`".into());
+    rep.assumptions.push("buffer acceptance is judged by the documented PacketBuffer placement rule (metadata slot free; payload contiguous at the tail of the payload ring, or at its head after padding the tail, the padding taking a slot of its own; an empty ring is reset first) applied to the geometry (slots, records in use, read position, length) read from the socket's public Debug image right after a refusal (a refused enqueue leaves the geometry unchanged); only 'refused although the rule places it' is a violation".into());
+    rep.assumptions.push("the IPv4 header checksum of every emitted packet of the socket's protocol (all fragments included) is verified with wirecheck (RFC 1071) where DeviceCapabilities::checksum.ipv4 is Both or Tx".into());
     rep.assumptions.push("model bookkeeping uses public api only: send*/recv*/peek* results, send_queue()/recv_queue()/can_recv(), packet capacities; the single exception is whether a ZERO-length udp datagram was queued (recv_queue() cannot tell), which is read from the socket's public Debug image".into());
     rep.assumptions.push("lenient readings: icmp sockets: checksum field of sent/received ICMP messages masked (the socket re-serialises the message); raw sockets: IP header compared by version/src/dst/protocol/hop limit, payload byte-exact (header documented as re-serialised); 3-byte garbage handed to an icmp/raw socket and datagrams to a destination without route may be dropped or stay queued, but must never appear on the wire differently; a zero-length udp datagram carries no label (order among identical zero-length datagrams is not observable)".into());
     rep.assumptions.push("close() discards queued datagrams (documented); on the ordinary links datagram sizes stay far below the MTU; on the tight IPv4 links a datagram that fits the IP MTU must leave as ONE unfragmented packet, for a datagram one byte over the MTU only the first fragment is judged (order, at most once, addressing, content prefix) - fragmentation itself is C12's subject; fingerprint: ident and buffered bytes of the egress fragmenter stripped (only copied into later fragments), an empty fragmenter is one state".into());
@@ -2284,7 +2438,8 @@ pub fn run(tier: Tier) -> i32 {
     rep.cov(
         "alphabet",
         json!({
-            "tight_links": "IPv4, tx alphabet, IP MTU 36 (= 4 mod 8) and 34: send sizes {hdr, M-1, M, M+1} with M = the datagram whose IP packet is exactly the IP MTU; a datagram that fits must leave unfragmented (MF=0, offset 0); for M+1 the first fragment stands for the datagram, later fragments are only counted (C12)",
+            "small_rings": "4 metadata slots, payload ring 16 / 24 (+2*hdr) octets, sizes {2,6,8}+hdr and capacity: rx and tx alphabets (wrap-around with exact fit, one short, one over)",
+            "tight_links": "IPv4, tx alphabet, IP MTU 36 (= 4 mod 8) and 34: send sizes {M-1, M, M+1, M+17 (3 resp. 4 fragments)} with M = the datagram whose IP packet is exactly the IP MTU; a datagram that fits must leave unfragmented (MF=0, offset 0); for M+1 the first fragment stands for the datagram, later fragments are only counted (C12)",
             "send_local_address": "udp: the interface owns two addresses per family; extra sends with UdpMetadata::local_address = Some(first own address) / Some(second own address) (to A, and to the unresolved B on Ethernet), offered while bound by port and while bound by (first address, port); expected IP source = local_address if set, else the bound address, else any own address",
             "checksum_capabilities": "extra tx-alphabet configurations with DeviceCapabilities::checksum = {ipv4 Rx, ipv4 None (IPv4), all five Rx (IPv4 and IPv6)} on Ethernet and Medium::Ip for all three socket kinds; a checksum field is only compared where the stack computes it (explicit match Both | Tx): the ICMP checksum of icmp-socket messages; IP/UDP checksums are never part of the comparison",
             "send": "size in {hdr, hdr+1, hdr+3, capacity} x destination in {A resolved, B unresolved on-link, C off-link (default route via B | no route)}; api rotates over send_slice / send / send_with(max=size+2); plus 3 malformed bytes (icmp, raw)",
